@@ -55,7 +55,10 @@ static void *c14_bt[24]; static int c14_nbt;
 static int c14_cur_step;
 static void c14_on_alarm(int sig) {
     (void)sig;
-    if(!c14_armed) return;
+    if(!c14_armed) {       /* the driver's own per-line guard (driver_main.h) fired outside a guarded library call */
+        static const char m[] = "HANG\n";
+        fflush(stdout); if(write(1, m, sizeof m - 1)) {} _exit(99);
+    }
     c14_armed = 0;
     c14_nbt = backtrace(c14_bt, 24);
     siglongjmp(c14_jb, 1);
